@@ -105,6 +105,8 @@ def fit_kwargs(case):
         kw["weights"] = make_weights(k["weights"], len(case["x"]))
     if k.get("tight"):
         kw["curve_fit_kwargs"] = dict(ftol=1e-15, xtol=1e-15, gtol=1e-15)
+    if k.get("cfkw") is not None:
+        kw["curve_fit_kwargs"] = dict(k["cfkw"])
     return kw
 
 
@@ -234,7 +236,15 @@ def gen_case(rng, tier, force=None):
     kw["loss"] = str(rng.choice(["soft_l1", "linear", "huber", "cauchy", "arctan"]))
     if rng.random() < 0.2:
         kw["max_eval"] = int(rng.choice([5, 40]))
+    r = rng.random()
+    if r < 0.12:
+        kw["cfkw"] = {"ftol": 1e-10}
+    elif r < 0.2:
+        kw["cfkw"] = {"xtol": 1e-10, "gtol": 1e-10}
+    elif r < 0.24:
+        kw["cfkw"] = {}
     case["kwargs"] = kw
+    case["entry"] = "function" if rng.random() < 0.4 else "method"
     return case
 
 
@@ -296,10 +306,10 @@ def bounds_of(m):
     return rows
 
 
-def run_impl(case, model=None):
+def run_impl(case, model=None, shared_cf=None):
     import gstools.covmodel.fit as F
     m = build_model(case, "start") if model is None else model
-    x, y = case_data(case)
+    x, y = case_data(case) if case.get("entry") != "krige" or "cond_pos" not in case else (None, None)
     before = snap(m)
     pre_copy = copy.deepcopy(m)
     bnds = bounds_of(m)
@@ -321,7 +331,12 @@ def run_impl(case, model=None):
         kw2["f"] = f2
         rec.update(called=True, p0=[float(v) for v in kwargs["p0"]], lo=[float(v) for v in kwargs["bounds"][0]],
                    hi=[float(v) for v in kwargs["bounds"][1]], mean_x=float(np.mean(kwargs["xdata"])),
-                   mean_y=float(np.mean(kwargs["ydata"])), sigma=kwargs.get("sigma"))
+                   mean_y=float(np.mean(kwargs["ydata"])),
+                   sigma=(None if kwargs.get("sigma") is None else [float(v) for v in np.asarray(kwargs["sigma"]).reshape(-1)]),
+                   absolute_sigma=kwargs.get("absolute_sigma"), keys=sorted(kwargs.keys()),
+                   xdata=[float(v) for v in np.asarray(kwargs["xdata"]).reshape(-1)],
+                   ydata=[float(v) for v in np.asarray(kwargs["ydata"]).reshape(-1)],
+                   passed={kk: kwargs[kk] for kk in ("ftol", "xtol", "gtol", "loss", "method", "max_nfev") if kk in kwargs})
         if len(rec["p0"]) == 0:
             # every parameter is fixed / deselected / determined by the sill: nothing is handed to the optimiser
             # (scipy fails with a TypeError on the empty start vector); outside the property's quantifier
@@ -332,9 +347,48 @@ def run_impl(case, model=None):
 
     F.curve_fit = wrapped
     out = dict(model=m, before=before, bounds=bnds, rec=rec, err=0, msg="", pre_copy=pre_copy)
+    call_kw = fit_kwargs(case)
+    if shared_cf is not None and "curve_fit_kwargs" in call_kw:
+        call_kw["curve_fit_kwargs"] = shared_cf       # ONE dict object of the caller, reused over several calls
+    user_cf = call_kw.get("curve_fit_kwargs")
+    user_cf_before = None if user_cf is None else dict(user_cf)
+    import gstools.covmodel.base as B
+    origB = B.fit_variogram
     try:
-        ret = m.fit_variogram(x, y, return_r2=True, **fit_kwargs(case))
-        out["dict"], out["pcov"], out["r2"] = ret
+        if case.get("entry") == "krige" and "cond_pos" in case:
+            # the pipeline Krige(model, cond_pos, cond_val, fit_variogram=True): vario_estimate -> model.fit_variogram(x, y, sill=var(field));
+            # the arguments it hands to the fit are captured so that the call can be compared like a direct one
+            import gstools as gs
+            cap = {}
+
+            def capB(model, x_data, y_data, **kwb):
+                cap.update(x=np.array(x_data, float), y=np.array(y_data, float), kw=dict(kwb))
+                res = origB(model, x_data, y_data, **kwb)
+                cap["ret"] = res
+                return res
+            B.fit_variogram = capB
+            fh = lambda v: float.fromhex(v)   # noqa
+            pos = np.array([fh(v) for v in case["cond_pos"]]).reshape(m.dim, -1)
+            val = np.array([fh(v) for v in case["cond_val"]])
+            try:
+                gs.krige.Ordinary(m, pos, val, fit_variogram=True)
+            finally:
+                if "x" in cap:
+                    case["x"] = [C.fhex(v) for v in cap["x"].ravel()]
+                    case["y"] = [C.fhex(v) for v in cap["y"].ravel()]
+                    case["yshape"] = list(cap["y"].shape)
+                    extra = {kk: vv for kk, vv in cap["kw"].items() if kk not in ("sill", "anis", "init_guess", "weights", "method",
+                                                                                  "loss", "max_eval", "return_r2", "curve_fit_kwargs")}
+                    case["kwargs"] = dict(select=[[kk, (vv if isinstance(vv, bool) else float(vv))] for kk, vv in extra.items()],
+                                          sill=float(cap["kw"]["sill"]), **{kk: cap["kw"][kk] for kk in ("method", "loss") if kk in cap["kw"]})
+            if "ret" in cap:
+                out["dict"], out["pcov"] = cap["ret"][0], cap["ret"][1]
+        elif case.get("entry") == "function":
+            ret = F.fit_variogram(m, x, y, return_r2=True, **call_kw)
+            out["dict"], out["pcov"], out["r2"] = ret
+        else:
+            ret = m.fit_variogram(x, y, return_r2=True, **call_kw)
+            out["dict"], out["pcov"], out["r2"] = ret
     except ValueError as e:
         out["err"] = err_code(e)
         out["msg"] = str(e)[:200]
@@ -351,7 +405,214 @@ def run_impl(case, model=None):
             "%s:%d" % (fr.name, fr.lineno) for fr in traceback.extract_tb(e.__traceback__)[-3:]))
     finally:
         F.curve_fit = orig
+        B.fit_variogram = origB
     out["after"] = snap(m)
+    if user_cf is not None:
+        out["cfkw_changed"] = sorted(kk for kk in set(user_cf) | set(user_cf_before)
+                                     if kk not in user_cf or kk not in user_cf_before or user_cf[kk] is not user_cf_before[kk])
+    return out
+
+
+def summarise(impl):
+    """JSON-able result of one call (used to compare a call in a history with the same call in a pristine process)"""
+    d = impl.get("dict")
+    rec = impl["rec"]
+    return dict(err=impl["err"], msg=impl["msg"][:160],
+                dict=None if d is None else {k: [float(a) for a in np.atleast_1d(v)] for k, v in d.items()},
+                after={k: ([float(a) for a in v] if isinstance(v, list) else float(v)) for k, v in impl["after"].items()},
+                r2=None if "r2" not in impl else float(impl["r2"]),
+                pcov=None if "pcov" not in impl else [float(a) for a in np.asarray(impl["pcov"]).reshape(-1)],
+                called=rec["called"], p0=rec.get("p0"), lo=rec.get("lo"), hi=rec.get("hi"), popt=rec.get("popt"),
+                sigma=rec.get("sigma"), absolute_sigma=rec.get("absolute_sigma"), keys=rec.get("keys"), nev=len(rec["evs"]),
+                passed={k: (v if not isinstance(v, float) else float(v)) for k, v in (rec.get("passed") or {}).items()})
+
+
+def set_exact_state(m, st):
+    """put the recorded parameter state (hex floats) into a freshly built model, bit for bit"""
+    fh = float.fromhex
+    object.__setattr__(m, "_var", fh(st["varraw"]))
+    object.__setattr__(m, "_len_scale", fh(st["len"]))
+    object.__setattr__(m, "_nugget", fh(st["nug"]))
+    for o, v in zip(m.opt_arg, st["opt"]):
+        object.__setattr__(m, o, fh(v))
+    object.__setattr__(m, "_anis", np.array([fh(v) for v in st["anis"]], dtype=np.double))
+    return m
+
+
+def exact_state(m):
+    return dict(varraw=float(m._var).hex(), len=float(m._len_scale).hex(), nug=float(m._nugget).hex(),
+                opt=[float(getattr(m, o)).hex() for o in m.opt_arg], anis=[float(a).hex() for a in np.atleast_1d(m._anis)])
+
+
+def zygote_main():
+    """pristine process: gstools imported, fit_variogram never called.  For every request (one JSON line: case + exact
+    state) a child is forked that performs exactly that one call and reports the result; the zygote itself stays pristine."""
+    import os
+    import sys
+    import gstools  # noqa
+    import gstools.covmodel.fit  # noqa
+    import scipy.optimize  # noqa
+    sys.stdout.write("ready\n")
+    sys.stdout.flush()
+    for line in sys.stdin:
+        line = line.strip()
+        if not line:
+            continue
+        r, w = os.pipe()
+        pid = os.fork()
+        if pid == 0:
+            os.close(r)
+            try:
+                req = json.loads(line)
+                case = req["case"]
+                m = build_model(case, "start")
+                set_exact_state(m, req["state"])
+                res = json.dumps(summarise(run_impl(case, model=m)))
+            except BaseException as e:  # noqa
+                res = json.dumps(dict(failed="%s: %s" % (type(e).__name__, e)))
+            with os.fdopen(w, "w") as f:
+                f.write(res)
+            os._exit(0)
+        os.close(w)
+        with os.fdopen(r) as f:
+            res = f.read()
+        os.waitpid(pid, 0)
+        sys.stdout.write((res or json.dumps(dict(failed="no result"))) + "\n")
+        sys.stdout.flush()
+
+
+class FreshRunner:
+    """client of the zygote: `call(case, state)` = the result of that call in a pristine interpreter state"""
+
+    def __init__(self):
+        import os
+        import subprocess
+        import sys
+        env = dict(os.environ, OMP_NUM_THREADS="1", OPENBLAS_NUM_THREADS="1", MKL_NUM_THREADS="1")
+        self.p = subprocess.Popen([sys.executable, "-W", "ignore", "-c", "import c10; c10.zygote_main()"], stdin=subprocess.PIPE,
+                                  stdout=subprocess.PIPE, text=True, bufsize=1, env=env)
+        self.ok = self.p.stdout.readline().strip() == "ready"
+
+    def call(self, case, state):
+        import select
+        if not self.ok:
+            return None
+        self.p.stdin.write(json.dumps(dict(case=case, state=state)) + "\n")
+        self.p.stdin.flush()
+        rl, _, _ = select.select([self.p.stdout], [], [], 120)
+        if not rl:
+            self.ok = False
+            return None
+        res = json.loads(self.p.stdout.readline())
+        return None if "failed" in res else res
+
+    def close(self):
+        try:
+            self.p.stdin.close()
+            self.p.wait(timeout=5)
+        except Exception:  # noqa
+            self.p.kill()
+
+
+def compare_fresh(a, b):
+    """history call (a) vs the same call in a pristine process (b): both are deterministic runs of the same code on
+    bit-identical parameters and data, so they agree up to BLAS-threading noise (1e-9; pcov 1e-6 of its largest entry)"""
+    bad = []
+    if a["err"] != b["err"]:
+        return ["outcome %s (%s) vs %s (%s) in a pristine process" % (ERR_NAMES.get(a["err"]), a["msg"], ERR_NAMES.get(b["err"]), b["msg"])]
+    if a["called"] != b["called"]:
+        return ["curve_fit reached: %r vs %r in a pristine process" % (a["called"], b["called"])]
+
+    def close_l(u, v, rtol=1e-9):
+        if u is None or v is None:
+            return u is None and v is None
+        u, v = np.asarray(u, float), np.asarray(v, float)
+        return u.shape == v.shape and bool(np.all((np.abs(u - v) <= rtol * np.maximum(np.abs(u), np.abs(v))) | ((u == v) | (np.isnan(u) & np.isnan(v)))))
+    for k in ("p0", "lo", "hi", "sigma"):
+        if not close_l(a[k], b[k], 0.0):
+            bad.append("curve_fit %s: %s vs %s in a pristine process" % (k, str(a[k])[:120], str(b[k])[:120]))
+    if a["keys"] != b["keys"] or a["absolute_sigma"] != b["absolute_sigma"] or a["passed"] != b["passed"]:
+        bad.append("keywords handed to curve_fit: %r %r vs %r %r in a pristine process" % (a["keys"], a["passed"], b["keys"], b["passed"]))
+    if a["err"] == 0:
+        if not close_l(a["popt"], b["popt"]):
+            bad.append("popt %r vs %r in a pristine process" % (a["popt"], b["popt"]))
+        for k in sorted(a["dict"]):
+            if not close_l(a["dict"][k], (b["dict"] or {}).get(k)):
+                bad.append("dict[%s] %r vs %r in a pristine process" % (k, a["dict"][k], (b["dict"] or {}).get(k)))
+        for k in ("varraw", "len", "nug", "opt", "anis"):
+            if not close_l(a["after"][k], b["after"][k]):
+                bad.append("state %s after the call %r vs %r in a pristine process" % (k, a["after"][k], b["after"][k]))
+        if a["r2"] is not None and b["r2"] is not None and not close_l([a["r2"]], [b["r2"]]):
+            bad.append("r2 %r vs %r in a pristine process" % (a["r2"], b["r2"]))
+        pa, pb = np.asarray(a["pcov"], float), np.asarray(b["pcov"], float)
+        if pa.shape != pb.shape or not (np.all(np.isfinite(pa) == np.isfinite(pb)) and
+                                        np.all(np.abs(pa - pb)[np.isfinite(pa)] <= 1e-6 * max(1e-300, np.max(np.abs(pa[np.isfinite(pa)]), initial=0.0)))):
+            bad.append("pcov differs from the pristine process: %s vs %s" % (str(a["pcov"])[:100], str(b["pcov"])[:100]))
+    return bad
+
+
+def expected_call(case, m):
+    """what fit_variogram has to hand to curve_fit as data / weights, from the call's OWN arguments (documented semantics)"""
+    x, y = case_xy(case)
+    if case.get("xdtype") in ("float32", "f32-noncontig"):
+        x = x.astype(np.float32).astype(float)
+    isdir = (m.dim > 1) and (x.size * m.dim == y.size)
+    xd = np.tile(x, m.dim) if isdir else x
+    if m.latlon:
+        xd = 2.0 * m.geo_scale * np.sin(xd / (2.0 * m.geo_scale))
+    w = case["kwargs"].get("weights")
+    if w is None:
+        sigma = None
+    elif isinstance(w, str) and w == "inv":
+        sigma = 1.0 + xd
+    elif isinstance(w, str) and w == "logistic":
+        sigma = 1.0 / make_weights(w, x.size)(xd)
+    else:
+        w = np.asarray(w, float).reshape(-1)
+        sigma = 1.0 / (np.tile(w, m.dim) if isdir and w.size * m.dim == xd.size else w)
+    return xd, sigma
+
+
+def check_call_kwargs(case, impl):
+    """probes that do not need a successful fit: data, weights and keywords handed to curve_fit are a function of the call's
+    own arguments; the caller's curve_fit_kwargs dict is not altered"""
+    out = []
+    rec = impl["rec"]
+    m = impl["model"]
+    if impl.get("cfkw_changed"):
+        out.append(("cfkw-mutated", "the caller's curve_fit_kwargs dict %r was altered by the call (keys %r)"
+                    % (case["kwargs"].get("cfkw") or "tight", impl["cfkw_changed"])))
+    if not rec["called"]:
+        return out
+    xd, sigma = expected_call(case, m)
+    f32 = case.get("xdtype") in ("float32", "f32-noncontig")
+    got_x = np.asarray(rec["xdata"], float)
+    if got_x.shape != xd.shape or not np.all(np.abs(got_x - xd) <= (1e-6 if f32 else 1e-13) * np.maximum(np.abs(xd), 1e-300)):
+        out.append(("xdata", "bin centres handed to curve_fit %s..., expected from the call's arguments %s..." % (str(got_x[:4]), str(xd[:4]))))
+    gs_ = rec["sigma"]
+    if (gs_ is None) != (sigma is None):
+        out.append(("sigma", "weights=%r but curve_fit got sigma %s" % (case["kwargs"].get("weights") if not isinstance(case["kwargs"].get("weights"), list) else "array",
+                                                                        "None" if gs_ is None else "of length %d: %s..." % (len(gs_), str(gs_[:3])))))
+    elif sigma is not None:
+        gs_ = np.asarray(gs_, float)
+        if gs_.shape != sigma.shape or not np.all(np.abs(gs_ - sigma) <= (1e-5 if f32 else 1e-12) * np.abs(sigma)):
+            out.append(("sigma", "sigma handed to curve_fit %s... differs from the weights of this call %s..." % (str(gs_[:4]), str(sigma[:4]))))
+        if rec["absolute_sigma"] is not True:
+            out.append(("sigma", "weights given but absolute_sigma = %r" % (rec["absolute_sigma"],)))
+    if sigma is None and rec["absolute_sigma"] is not None:
+        out.append(("sigma", "no weights but absolute_sigma = %r handed to curve_fit" % (rec["absolute_sigma"],)))
+    user = dict(ftol=1e-15, xtol=1e-15, gtol=1e-15) if case["kwargs"].get("tight") else {}
+    user.update(case["kwargs"].get("cfkw") or {})
+    exp_keys = {"f", "bounds", "p0", "xdata", "ydata", "loss", "max_nfev", "method"} | set(user) | ({"sigma", "absolute_sigma"} if sigma is not None else set())
+    if set(rec["keys"]) != exp_keys:
+        out.append(("cf-keys", "keywords handed to curve_fit %r, expected %r" % (rec["keys"], sorted(exp_keys))))
+    for kk, vv in user.items():
+        if rec["passed"].get(kk) != vv:
+            out.append(("cf-keys", "curve_fit_kwargs[%s] = %r given, curve_fit got %r" % (kk, vv, rec["passed"].get(kk))))
+    if rec["passed"].get("loss") != case["kwargs"].get("loss", "soft_l1") or rec["passed"].get("method") != case["kwargs"].get("method", "trf") \
+            or rec["passed"].get("max_nfev") != case["kwargs"].get("max_eval"):
+        out.append(("cf-keys", "loss/method/max_eval %r differ from the call's %r/%r/%r" % (
+            rec["passed"], case["kwargs"].get("loss", "soft_l1"), case["kwargs"].get("method", "trf"), case["kwargs"].get("max_eval"))))
     return out
 
 
@@ -828,9 +1089,16 @@ def run_recovery(ctx, case):
 
 
 # ------------------------------------------------------------------ one bookkeeping case: implementation, model, property
-def run_case(ctx, drv, case, stage="generated", model=None):
-    impl = run_impl(case, model)
+def run_case(ctx, drv, case, stage="generated", model=None, fresh=None, shared_cf=None):
+    state0 = exact_state(model if model is not None else build_model(case, "start")) if fresh is not None else None
+    impl = run_impl(case, model, shared_cf)
     m = impl["model"]
+    if "x" not in case:           # a pipeline entry that ended before the fit was reached
+        ctx.count(None, hist=dict(stage=stage, outcome="pipeline ended before the fit: " + ERR_NAMES.get(impl["err"], "?")))
+        if impl["err"] == 9:
+            ctx.violation("probe: fit_variogram ends with an undocumented exception", impl["msg"], dict(case, note=impl["msg"]),
+                          key="exception:" + impl["msg"].split(":")[0])
+        return []
     if impl["err"] == 9:
         ctx.violation("probe: fit_variogram ends with an undocumented exception", impl["msg"], dict(case, note=impl["msg"]),
                       key="exception:" + impl["msg"].split(":")[0])
@@ -858,6 +1126,18 @@ def run_case(ctx, drv, case, stage="generated", model=None):
         mod = run_model(drv, case, impl)
         tie_bad = compare_model(ctx, case, impl, mod)
     prop_bad = check_property(ctx, case, impl) if impl["err"] == 0 else []
+    if impl["err"] != 9:
+        prop_bad = prop_bad + check_call_kwargs(case, impl)
+    if fresh is not None:
+        ref_case = {k_: v_ for k_, v_ in case.items() if k_ not in ("history", "cond_pos", "cond_val")}
+        if case.get("entry") == "krige":
+            ref_case["entry"] = "method"
+        ref = fresh.call(ref_case, state0) if "x" in ref_case else None
+        if ref is not None:
+            ctx.count(None, hist=dict(stage="pristine-process reference", entry=case.get("entry", "method")))
+            for t in compare_fresh(summarise(impl), ref):
+                prop_bad.append(("fresh", "the call does not give what the same call gives in a pristine process "
+                                          "(after %d earlier calls in this process): %s" % (len(case.get("history", [])), t)))
     if drv is not None and "r2_data" in impl:
         # the extracted r2 model on (data, fitted curve) vs the returned r2 (sequential vs pairwise summation: 1e-9)
         yv, vv, r2_ref = impl["r2_data"]
@@ -1031,42 +1311,114 @@ def present_case(m, case):
         st["anis"] = [float(a) for a in m.anis]
     case["start"] = st
     case["bounds"] = {k: list(v) for k, v in m.arg_bounds.items()}
+    case["geo_scale"] = float(m.geo_scale)
+    case["latlon"] = bool(m.latlon)
+    case["dim"] = int(m.dim)
     return case
 
 
-def run_history(ctx, drv, rng, ostate, steps=3):
-    """several fit_variogram calls (other data, selections, sill, ...) and in-place changes on ONE model object; every call
-    is compared with FitBook started from the object's present parameters (the theorems speak about exactly that: the
-    result is a function of the present parameters, the keywords and popt) and probed against the property statement"""
+def history_step(ctx, drv, case, m, ostate, fresh, shared_cf, earlier):
+    """one call of a history on the object m (shared by run_history and replay)"""
+    present_case(m, case)
+    case["history"] = earlier
+    ostate["copy"] = copy.deepcopy(m)
+    return run_case(ctx, drv, case, stage="history", model=m, fresh=fresh, shared_cf=shared_cf)
+
+
+def apply_change(m, ch):
+    try:
+        if ch[0] == "len_scale":
+            m.len_scale = ch[1]
+        elif ch[0] == "nugget":
+            m.nugget = ch[1]
+        elif ch[0] == "var":
+            m.var = ch[1]
+        elif ch[0] == "nugget_bounds":
+            m.set_arg_bounds(nugget=[0.0, ch[1], "cc"])
+    except ValueError:
+        pass
+
+
+def run_history(ctx, drv, rng, ostate, fresh=None, steps=4):
+    """several fit_variogram calls on ONE model object through both public forms (method / function), mixing weighted and
+    unweighted calls, other bin counts, data, selections, sill, curve_fit_kwargs given (one dict object of the caller reused) /
+    not given, and in-place changes between the calls.  Every call is compared (i) with FitBook started from the object's
+    present parameters, (ii) with the property statement and the documented data / weights / keywords handed to curve_fit,
+    (iii) with the very same call in a pristine process on a bit-identical fresh model: a call's result is a function of its
+    own arguments and the present parameters only"""
     cls = str(rng.choice(CLASSES))
     first = gen_case(rng, "quick", dict(cls=cls))
     m = build_model(first, "start")
+    shared_cf = {"ftol": 1e-10}
     tb_all = []
+    earlier = []
     for step in range(steps):
         case = first if step == 0 else gen_case(rng, "quick", dict(cls=cls, dim=first["dim"], latlon=first["latlon"]))
-        case["kwargs"]["select"] = [sv for sv in case["kwargs"]["select"] if sv[0] != "wrong_name"]
+        k = case["kwargs"]
+        k["select"] = [sv for sv in k["select"] if sv[0] != "wrong_name"]
+        r = rng.random()
+        case["entry"] = "function" if r < 0.45 else "method"
+        if r > 0.88 and not first["latlon"]:
+            # the Krige(..., fit_variogram=True) pipeline on scattered data with the object's present parameters
+            case["entry"] = "krige"
+            npts = int(rng.integers(40, 90))
+            L = float(m.len_scale)
+            pos = rng.uniform(0, 8 * L, size=(m.dim, npts))
+            val = np.sin(pos.sum(axis=0) / L) + 0.5 * np.cos(pos[0] / (0.6 * L)) + 0.2 * rng.normal(size=npts)
+            case["cond_pos"] = [C.fhex(v) for v in pos.ravel()]
+            case["cond_val"] = [C.fhex(v) for v in val]
+            for kk in ("x", "y", "yshape"):
+                case.pop(kk, None)
+            case["kwargs"] = dict(select=[])
+            k = case["kwargs"]
+        # weighted / unweighted alternate more often than in gen_case; array weights have this call's bin count
+        r = rng.random()
+        if case["entry"] == "krige":
+            pass
+        elif r < 0.4:
+            k["weights"] = None
+        elif r < 0.6:
+            k["weights"] = "inv"
+        elif r < 0.9:
+            k["weights"] = [float(v) for v in rng.uniform(0.5, 5.0, len(case["x"]))]
+        use_shared = rng.random() < 0.35 and case["entry"] != "krige"
+        if use_shared:
+            k["cfkw"] = {"ftol": 1e-10}
+        case["change"] = None
         if step > 0:
-            # an in-place change between the calls
             r = rng.random()
-            try:
-                if r < 0.3:
-                    m.len_scale = float(m.len_scale * rng.uniform(0.5, 2.0))
-                elif r < 0.5:
-                    m.nugget = float(rng.uniform(0.0, 0.5))
-                elif r < 0.7:
-                    m.var = float(rng.uniform(0.3, 3.0))
-                elif r < 0.85:
-                    m.set_arg_bounds(nugget=[0.0, float(rng.uniform(2.0, 9.0)), "cc"])
-            except ValueError:
-                pass
-        present_case(m, case)
-        case["cell"] = "history:%s:step%d" % (cls, step)
-        ostate["copy"] = copy.deepcopy(m)
-        tb = run_case(ctx, drv, case, stage="history", model=m)
+            ch = (("len_scale", float(m.len_scale * rng.uniform(0.5, 2.0))) if r < 0.3 else ("nugget", float(rng.uniform(0.0, 0.5))) if r < 0.5
+                  else ("var", float(rng.uniform(0.3, 3.0))) if r < 0.7 else ("nugget_bounds", float(rng.uniform(2.0, 9.0))) if r < 0.85 else None)
+            if ch:
+                apply_change(m, ch)
+                case["change"] = list(ch)
+        case["cell"] = "history:%s:step%d:%s" % (cls, step, case["entry"])
+        case["shared_cf"] = use_shared
+        tb = history_step(ctx, drv, case, m, ostate, fresh, shared_cf if use_shared else None, list(earlier))
+        earlier.append({kk: vv for kk, vv in case.items() if kk != "history"})
         tb_all += ["history step %d: %s" % (step, t) for t in tb]
         if tb and "first" not in ostate:
             ostate["first"] = (case, tb)
     return tb_all
+
+
+def replay_history(ctx, drv, case, ostate, fresh):
+    """re-run the earlier calls of a history (same objects, same order), then the failing call"""
+    hist = case.get("history") or []
+    seq = hist + [case]
+    m = build_model(seq[0], "start")
+    shared_cf = {"ftol": 1e-10}
+    quiet = C.Ctx(ctx.pid, ctx.tier, ctx.seed)
+    quiet.violation = lambda *a, **k: False
+    tb = []
+    for i, c in enumerate(seq):
+        c = copy.deepcopy(c)
+        if i > 0 and c.get("change"):
+            apply_change(m, c["change"])
+        last = i == len(seq) - 1
+        tb = history_step(ctx if last else quiet, drv, c, m, ostate, fresh if last else None,
+                          shared_cf if c.get("shared_cf") else None, seq[:i])
+    return tb
 
 
 def oracle_factory(state):
@@ -1127,6 +1479,10 @@ def run(ctx):
     tie_broken = [] if okd else ["extraction/driver build failed: " + out[-300:]]
     n_cases = 3000 if thorough else 300
     first_tie_case = None
+    fresh = FreshRunner()
+    if not fresh.ok:
+        ctx.notes.append("pristine-process reference runner could not be started; the fresh-state comparison was skipped")
+        fresh = None
     try:
         # ---- corpus: past failures first
         import glob
@@ -1143,7 +1499,7 @@ def run(ctx):
                 force["cls"] = CLASSES[i]
             case = gen_case(rng, ctx.tier, force)
             ostate["copy"] = build_model(case, "start")
-            tb = run_case(ctx, drv, case)
+            tb = run_case(ctx, drv, case, fresh=(fresh if i % 5 == 4 else None))
             if tb and first_tie_case is None:
                 first_tie_case = (case, tb)
             tie_broken += tb
@@ -1165,7 +1521,7 @@ def run(ctx):
             C.log("[C10] %s: %d cells, %.1fs" % (stage_name, len(cs), time.time() - t0))
         # ---- histories on one object
         for h in range(150 if thorough else 25):
-            tb = run_history(ctx, drv, rng, ostate)
+            tb = run_history(ctx, drv, rng, ostate, fresh)
             if tb and first_tie_case is None and "first" in ostate:
                 first_tie_case = ostate["first"]
             tie_broken += tb
@@ -1179,6 +1535,8 @@ def run(ctx):
     finally:
         if drv is not None:
             drv.close()
+        if fresh is not None:
+            fresh.close()
     if (not ok or tie_broken) and not ctx.violations:
         what = []
         if not ok:
@@ -1270,6 +1628,14 @@ def replay(ctx, path):
         try:
             if rec["stage"].startswith("probe: recovery"):
                 run_recovery(ctx, case)
+            elif case.get("history") is not None:
+                fr = FreshRunner()
+                try:
+                    tb = replay_history(ctx, drv, case, ostate, fr if fr.ok else None)
+                finally:
+                    fr.close()
+                if tb and not ctx.violations:
+                    ctx.violation("proof/tie", "correspondence: " + "; ".join(tb[:3]), dict(case=case), no_input=True)
             else:
                 tb = run_case(ctx, drv, case, stage="replay")
                 if tb and not ctx.violations:
